@@ -656,7 +656,16 @@ func (r *Replica) Restore(ctx context.Context, opt RestoreOptions) (err error) {
 					return fmt.Errorf("cannot resume follow mode: saved TXID %s is behind the earliest snapshot (min TXID %s); replica history has been pruned -- delete %s and %s-txid to re-restore", txid, latestSnapshot.MinTXID, opt.OutputPath, opt.OutputPath)
 				}
 				if txid > latestSnapshot.MaxTXID {
-					return fmt.Errorf("cannot resume follow mode: saved TXID %s is ahead of latest snapshot (max TXID %s); delete %s and %s-txid to re-restore", txid, latestSnapshot.MaxTXID, opt.OutputPath, opt.OutputPath)
+					// A follower is normally ahead of the newest snapshot. It is
+					// only ahead of the replica itself if no level-0 file reaches
+					// its TXID either.
+					l0Info, l0Err := r.MaxLTXFileInfo(ctx, 0)
+					if l0Err != nil {
+						return fmt.Errorf("cannot validate saved TXID for crash recovery: %w", l0Err)
+					}
+					if txid > l0Info.MaxTXID {
+						return fmt.Errorf("cannot resume follow mode: saved TXID %s is ahead of latest snapshot (max TXID %s); delete %s and %s-txid to re-restore", txid, latestSnapshot.MaxTXID, opt.OutputPath, opt.OutputPath)
+					}
 				}
 			}
 
